@@ -24,6 +24,8 @@ while args:
     else:
         names.append(a)
 B = "/verif/benign"
+# changes that keep every property but the listed ones (the alarm of those checks is the expected, correct outcome)
+EXPECT = json.load(open(B + "/EXPECT.json")) if os.path.exists(B + "/EXPECT.json") else {}
 names = names or sorted(f[:-5] for f in os.listdir(B) if f.endswith(".diff"))
 
 def one(name):
@@ -41,6 +43,11 @@ def one(name):
             rc, o = sh("cd /verif && VERIF_REPO=%s VERIF_EVIDENCE_DIR=%s timeout 3000 ./check %s --tier quick" % (tree, evd, c))
             lines = [l for l in o.split("\n") if l.startswith("VIOLATION") or l.strip().startswith("what:") or "CHECK-BROKEN" in l or "SPEC-DRIFT" in l]
             res[c] = {"rc": rc, "wall_s": round(time.time() - t), "lines": [l[:300] for l in lines[:6]]}
+            if c in EXPECT.get(name, []):
+                res[c]["expected_alarm"] = True
+                print(name, c, "alarm as expected" if rc == 1 else "EXPECTED ALARM MISSING rc=%d" % rc, flush=True)
+                res[c]["rc"] = 0 if rc == 1 else 3
+                continue
             print(name, c, "ok" if rc == 0 else "ALARM rc=%d" % rc, "(drift noted)" if any("SPEC-DRIFT" in l for l in lines) and rc == 0 else "", flush=True)
     finally:
         sh("git -C /repo worktree remove --force %s; rm -rf %s" % (tree, evd))
